@@ -1,4 +1,424 @@
 import PgsVerif.Model.AstSem2
+import PgsVerif.Proofs.Hydrate
+import PgsVerif.Props.C01
+/-!
+# C08 — source locations attach to exactly the entity their path designates
+
+`fileChildAt` / `msgChildAt` transcribe the `childAtPath` chain (file.go, message.go, enum.go,
+service.go; `preservedMsgs` indexing; the odd-length rule).  Two directions, for every file and
+every path:
+
+* `C08_no_other`   — whatever entity a path is routed to, it is the entity whose declaration path
+                     IS that path; so a location can never land on another entity, and paths that
+                     designate names, numbers, options, ranges … (which are no declaration's path)
+                     either resolve to nothing or to … nothing else: see `C08_only_designated`;
+* `C08_designated` — the path of every declared message, field, oneof, enum, enum value, service,
+                     method and extension — at any nesting depth, with map entries occupying
+                     nested-type indices — is routed to that declaration.
+
+`C08_only_designated` / `C08_attached` lift both to the state `hydrateSourceCodeInfo` builds by
+folding `routeLoc` over the locations of a file.
+-/
 namespace Pgs.AST
-theorem placeholder_C08 : True := trivial
+
+/-! ### a path is routed to the entity with that path, or to nothing -/
+theorem msgChildAt_path (fi : Nat) : ∀ (n : Nat) (path : List Nat), path.length ≤ n →
+    ∀ (here : List Nat) (h : MsgHead) (nested : Msgs) (r : Ref),
+    msgChildAt fi here h nested path = some r → r = ⟨fi, here ++ path⟩ := by
+  intro n
+  induction n with
+  | zero =>
+    intro path hl here h nested r hr
+    cases path with
+    | nil => simp [msgChildAt] at hr; simp [hr]
+    | cons a t => simp at hl
+  | succ n ih =>
+    intro path hl here h nested r hr
+    match path, hl with
+    | [], _ => simp [msgChildAt] at hr; simp [hr]
+    | [_], _ => simp [msgChildAt] at hr
+    | tag :: i :: rest, hl =>
+      rw [msgChildAt] at hr
+      split at hr
+      · simp at hr
+      split at hr
+      · split at hr
+        · split at hr
+          · rename_i h2 _ hrest; cases hr; simp [h2, hrest]
+          · simp at hr
+        · simp at hr
+      split at hr
+      · rename_i h3
+        split at hr
+        · rename_i h' n' hget
+          have := ih rest (by simp at hl; omega) _ _ _ _ hr
+          rw [this, h3]; simp
+        · simp at hr
+      split at hr
+      · rename_i h4
+        split at hr
+        · split at hr
+          · cases hr; simp [h4]
+          · split at hr
+            · cases hr; simp [h4]
+            · simp at hr
+          · simp at hr
+        · simp at hr
+      split at hr
+      · rename_i h8
+        split at hr
+        · rename_i hc; cases hr; simp [h8, hc.2]
+        · simp at hr
+      split at hr
+      · rename_i h6
+        split at hr
+        · rename_i hc; cases hr; simp [h6, hc.2]
+        · simp at hr
+      simp at hr
+
+/-- **C08 (to no other entity)** -/
+theorem C08_no_other (fi : Nat) (f : FileD) (path : List Nat) (r : Ref)
+    (h : fileChildAt fi f path = some r) : r = ⟨fi, path⟩ := by
+  unfold fileChildAt at h
+  split at h
+  · cases h; rfl
+  · simp at h
+  · rename_i tag i rest
+    split at h
+    · simp at h
+    split at h
+    · rename_i h4
+      split at h
+      · have := msgChildAt_path fi _ rest (Nat.le_refl _) _ _ _ _ h
+        rw [this, h4]; simp
+      · simp at h
+    split at h
+    · rename_i h5
+      split at h
+      · split at h
+        · cases h; simp [h5]
+        · split at h
+          · cases h; simp [h5]
+          · simp at h
+        · simp at h
+      · simp at h
+    split at h
+    · rename_i h6
+      split at h
+      · split at h
+        · cases h; simp [h6]
+        · split at h
+          · cases h; simp [h6]
+          · simp at h
+        · simp at h
+      · simp at h
+    split at h
+    · rename_i h7
+      split at h
+      · rename_i hc; cases h; simp [h7, hc.2]
+      · simp at h
+    simp at h
+
+/-! ### every declaration's path is routed to that declaration -/
+theorem idx_mem {α} : ∀ (l : List α) (k : Nat) (x : α), (k, x) ∈ idx l → l[k]? = some x := by
+  intro l
+  induction l with
+  | nil => intro k x h; simp [idx] at h
+  | cons a l ih =>
+    intro k x h
+    rw [idx_cons] at h
+    rcases List.mem_cons.mp h with h | h
+    · cases h; rfl
+    · simp only [List.mem_map] at h
+      obtain ⟨⟨k', x'⟩, hm, he⟩ := h
+      cases he
+      simpa using ih k' x' hm
+
+theorem idx_mem_lt {α} (l : List α) (k : Nat) (x : α) (h : (k, x) ∈ idx l) : k < l.length := by
+  have := idx_mem l k x h
+  exact (List.getElem?_eq_some_iff.mp this).1
+
+/-- what `msgChildAt` is asked for a declaration below a message: an even-length rest that is
+    routed to the declaration -/
+def RoutedBelow (fi : Nat) (here : List Nat) (h : MsgHead) (nested : Msgs) (d : Decl) : Prop :=
+  ∃ rest, d.ref.path = here ++ rest ∧ rest.length % 2 = 0 ∧ msgChildAt fi here h nested rest = some d.ref ∧ d.ref.file = fi
+
+theorem enums_routed (fi : Nat) (sc : String) (here : List Nat) (h : MsgHead) (nested : Msgs) :
+    ∀ d ∈ declEnums fi sc here 4 h.enums, RoutedBelow fi here h nested d := by
+  intro d hd
+  simp only [declEnums, List.mem_flatten, List.mem_map] at hd
+  obtain ⟨l, ⟨⟨i, e⟩, hi, rfl⟩, hd⟩ := hd
+  have he := idx_mem _ _ _ hi
+  simp only [declEnum, List.mem_cons, List.mem_map] at hd
+  rcases hd with rfl | ⟨⟨v, ev⟩, hv, rfl⟩
+  · exact ⟨[4, i], rfl, by simp, by simp [msgChildAt, he], rfl⟩
+  · have hlt := idx_mem_lt _ _ _ hv
+    exact ⟨[4, i, 2, v], by simp, by simp, by simp [msgChildAt, he, hlt], rfl⟩
+
+theorem fields_routed (fi : Nat) (sc : String) (here : List Nat) (h : MsgHead) (nested : Msgs) :
+    ∀ d ∈ declFields fi sc here 2 .field h.fields, RoutedBelow fi here h nested d := by
+  intro d hd
+  simp only [declFields, List.mem_map] at hd
+  obtain ⟨⟨i, x⟩, hi, rfl⟩ := hd
+  have hlt := idx_mem_lt _ _ _ hi
+  exact ⟨[2, i], rfl, by simp, by simp [msgChildAt, hlt], rfl⟩
+
+theorem exts_routed (fi : Nat) (sc : String) (here : List Nat) (h : MsgHead) (nested : Msgs) :
+    ∀ d ∈ declFields fi sc here 6 .ext h.exts, RoutedBelow fi here h nested d := by
+  intro d hd
+  simp only [declFields, List.mem_map] at hd
+  obtain ⟨⟨i, x⟩, hi, rfl⟩ := hd
+  have hlt := idx_mem_lt _ _ _ hi
+  exact ⟨[6, i], rfl, by simp, by simp [msgChildAt, hlt], rfl⟩
+
+theorem oneofs_routed (fi : Nat) (sc : String) (here : List Nat) (h : MsgHead) (nested : Msgs) :
+    ∀ d ∈ declOneofs fi sc here h.oneofs, RoutedBelow fi here h nested d := by
+  intro d hd
+  simp only [declOneofs, List.mem_map] at hd
+  obtain ⟨⟨i, x⟩, hi, rfl⟩ := hd
+  have hlt := idx_mem_lt _ _ _ hi
+  exact ⟨[8, i], rfl, by simp, by simp [msgChildAt, hlt], rfl⟩
+
+/-- the messages of a sibling list (a suffix `ms`, from index `i`, of the whole list `all`) and
+    everything below them: each declaration is routed from the message of `all` it lies in -/
+theorem msgs_routed (fi : Nat) : ∀ (ms : Msgs) (sc : String) (p : List Nat) (tag i : Nat) (all : Msgs),
+    (∀ k, all.get? (i + k) = ms.get? k) →
+    ∀ d ∈ declMsgs fi sc p tag i ms, ∃ j h' n', all.get? j = some (h', n') ∧ RoutedBelow fi (p ++ [tag, j]) h' n' d := by
+  intro ms
+  induction ms with
+  | nil => intro sc p tag i all _ d hd; simp [declMsgs] at hd
+  | cons h nested rest ih1 ih2 =>
+    intro sc p tag i all hall d hd
+    simp only [declMsgs, List.cons_append, List.mem_cons, List.mem_append] at hd
+    have hget : all.get? i = some (h, nested) := by have := hall 0; simpa [Msgs.get?] using this
+    rcases hd with rfl | (((((hd | hd) | hd) | hd) | hd) | hd)
+    · exact ⟨i, h, nested, hget, [], by simp, rfl, by simp [msgChildAt], rfl⟩
+    · exact ⟨i, h, nested, hget, enums_routed fi _ _ h nested d hd⟩
+    · -- below a nested message: compose the routes
+      obtain ⟨j, h2, n2, hg2, rest2, hp2, hev2, hr2, hf2⟩ := ih1 _ (p ++ [tag, i]) 3 0 nested (fun k => by simp) d hd
+      refine ⟨i, h, nested, hget, 3 :: j :: rest2, by simp [hp2], by simp; omega, ?_, hf2⟩
+      rw [msgChildAt]
+      have : (rest2.length % 2 != 0) = false := by simp [hev2]
+      simp only [List.append_assoc, List.cons_append, List.nil_append] at hr2
+      simp [this, hg2, hr2]
+    · exact ⟨i, h, nested, hget, oneofs_routed fi _ _ h nested d hd⟩
+    · exact ⟨i, h, nested, hget, fields_routed fi _ _ h nested d hd⟩
+    · exact ⟨i, h, nested, hget, exts_routed fi _ _ h nested d hd⟩
+    · exact ih2 sc p tag (i+1) all (fun k => by
+        have := hall (k+1)
+        simp only [Msgs.get?] at this
+        rw [← this]; congr 1; omega) d hd
+
+/-- **C08 (designated)**: in file `fi`, the path of every declaration other than the file itself is
+    routed to that declaration. -/
+theorem C08_designated (fi : Nat) (f : FileD) : ∀ d ∈ declFile fi f, d.kind ≠ .file →
+    fileChildAt fi f d.ref.path = some d.ref := by
+  intro d hd hk
+  simp only [declFile, declFileHead, declServices, List.cons_append, List.mem_cons, List.mem_append,
+    List.mem_flatten, List.mem_map] at hd
+  rcases hd with rfl | (((hd | hd) | hd) | ⟨l, ⟨⟨i, s⟩, hi, rfl⟩, hd⟩)
+  · exact absurd rfl hk
+  · -- file-level enums and their values
+    simp only [declEnums, List.mem_flatten, List.mem_map] at hd
+    obtain ⟨l, ⟨⟨i, e⟩, hi, rfl⟩, hd⟩ := hd
+    have he := idx_mem _ _ _ hi
+    simp only [declEnum, List.mem_cons, List.mem_map] at hd
+    rcases hd with rfl | ⟨⟨v, ev⟩, hv, rfl⟩
+    · simp [fileChildAt, he]
+    · have hlt := idx_mem_lt _ _ _ hv
+      simp [fileChildAt, he, hlt]
+  · -- file-level extensions
+    simp only [declFields, List.mem_map] at hd
+    obtain ⟨⟨i, x⟩, hi, rfl⟩ := hd
+    have hlt := idx_mem_lt _ _ _ hi
+    simp [fileChildAt, hlt]
+  · -- messages and everything below them
+    obtain ⟨j, h', n', hg, rest, hp, hev, hr, hf⟩ := msgs_routed fi f.msgs _ [] 4 0 f.msgs (fun k => by simp) d hd
+    have hpath : d.ref.path = 4 :: j :: rest := by simpa using hp
+    rw [hpath, fileChildAt]
+    have : (rest.length % 2 != 0) = false := by simp [hev]
+    simp only [this, hg]
+    simpa using hr
+  · -- services and methods
+    have hs := idx_mem _ _ _ hi
+    simp only [declService, List.mem_cons, List.mem_map] at hd
+    rcases hd with rfl | ⟨⟨m, em⟩, hm, rfl⟩
+    · simp [fileChildAt, hs]
+    · have hlt := idx_mem_lt _ _ _ hm
+      simp [fileChildAt, hs, hlt]
+
+end Pgs.AST
+
+/-! ### the state `hydrateSourceCodeInfo` builds -/
+namespace Pgs.AST
+
+theorem routeLoc_infos (fi : Nat) (f : FileD) (st : InfoState) (l : Loc) :
+    (routeLoc fi f st l).infos = st.infos ∨
+    (∃ r, fileChildAt fi f l.path = some r ∧ r.path ≠ [] ∧ (routeLoc fi f st l).infos = (r, l.tag) :: st.infos) := by
+  unfold routeLoc
+  simp only
+  split
+  · left; split <;> (try split) <;> (try split) <;> rfl
+  · cases hc : fileChildAt fi f l.path with
+    | none => left; simp only; split <;> (try split) <;> (try split) <;> rfl
+    | some r =>
+      simp only
+      by_cases hp : r.path = []
+      · left; simp only [hp, if_true]; split <;> (try split) <;> (try split) <;> rfl
+      · right
+        refine ⟨r, rfl, hp, ?_⟩
+        simp only [hp, if_false]
+        split <;> (try split) <;> (try split) <;> rfl
+
+/-- **C08 (only the designated entity)**: every (entity, location) pair in the final state comes
+    from a location whose path is exactly that entity's declaration path. -/
+theorem C08_only_designated (fi : Nat) (f : FileD) : ∀ (locs : List Loc) (st0 : InfoState),
+    ∀ e ∈ (locs.foldl (routeLoc fi f) st0).infos,
+      e ∈ st0.infos ∨ ∃ l ∈ locs, e.2 = l.tag ∧ e.1 = ⟨fi, l.path⟩ := by
+  intro locs
+  induction locs with
+  | nil => intro st0 e he; exact .inl he
+  | cons l locs ih =>
+    intro st0 e he
+    simp only [List.foldl_cons] at he
+    rcases ih _ e he with h | ⟨l', hl', h1, h2⟩
+    · rcases routeLoc_infos fi f st0 l with h0 | ⟨r, hr, _, h0⟩
+      · rw [h0] at h; exact .inl h
+      · rw [h0] at h
+        rcases List.mem_cons.mp h with rfl | h
+        · exact .inr ⟨l, List.mem_cons_self .., rfl, C08_no_other fi f _ _ hr⟩
+        · exact .inl h
+    · exact .inr ⟨l', List.mem_cons_of_mem _ hl', h1, h2⟩
+
+theorem routeLoc_mono (fi : Nat) (f : FileD) (st : InfoState) (l : Loc) : ∀ e ∈ st.infos, e ∈ (routeLoc fi f st l).infos := by
+  intro e he
+  rcases routeLoc_infos fi f st l with h0 | ⟨r, _, _, h0⟩ <;> rw [h0]
+  · exact he
+  · exact List.mem_cons_of_mem _ he
+
+theorem fold_mono (fi : Nat) (f : FileD) : ∀ (locs : List Loc) (st0 : InfoState),
+    ∀ e ∈ st0.infos, e ∈ (locs.foldl (routeLoc fi f) st0).infos := by
+  intro locs
+  induction locs with
+  | nil => intro st0 e he; exact he
+  | cons l locs ih => intro st0 e he; exact ih _ e (routeLoc_mono fi f st0 l e he)
+
+/-- declarations other than the file have a non-empty path -/
+theorem decl_path_ne_nil (fi : Nat) (f : FileD) : ∀ d ∈ declFile fi f, d.kind ≠ .file → d.ref.path ≠ [] := by
+  intro d hd hk hnil
+  have h1 := C08_designated fi f d hd hk
+  -- the only declaration routed from the empty path is the file; every other one was shown to be
+  -- routed from `tag :: i :: rest`
+  simp only [declFile, declFileHead, declServices, List.cons_append, List.mem_cons, List.mem_append,
+    List.mem_flatten, List.mem_map] at hd
+  rcases hd with rfl | (((hd | hd) | hd) | ⟨l, ⟨⟨i, s⟩, hi, rfl⟩, hd⟩)
+  · exact hk rfl
+  · simp only [declEnums, List.mem_flatten, List.mem_map] at hd
+    obtain ⟨l, ⟨⟨i, e⟩, hi, rfl⟩, hd⟩ := hd
+    simp only [declEnum, List.mem_cons, List.mem_map] at hd
+    rcases hd with rfl | ⟨⟨v, ev⟩, hv, rfl⟩ <;> simp at hnil
+  · simp only [declFields, List.mem_map] at hd
+    obtain ⟨⟨i, x⟩, hi, rfl⟩ := hd
+    simp at hnil
+  · obtain ⟨j, h', n', hg, rest, hp, _⟩ := msgs_routed fi f.msgs _ [] 4 0 f.msgs (fun k => by simp) d hd
+    rw [hnil] at hp; simp at hp
+  · simp only [declService, List.mem_cons, List.mem_map] at hd
+    rcases hd with rfl | ⟨⟨m, em⟩, hm, rfl⟩ <;> simp at hnil
+
+/-- **C08 (attached)**: a location whose path designates a declaration is attached to it. -/
+theorem C08_attached (fi : Nat) (f : FileD) (d : Decl) (hd : d ∈ declFile fi f) (hk : d.kind ≠ .file) :
+    ∀ (locs : List Loc) (st0 : InfoState), ∀ l ∈ locs, l.path = d.ref.path →
+      (d.ref, l.tag) ∈ (locs.foldl (routeLoc fi f) st0).infos := by
+  intro locs
+  induction locs with
+  | nil => intro st0 l hl; simp at hl
+  | cons l0 locs ih =>
+    intro st0 l hl hp
+    simp only [List.foldl_cons]
+    rcases List.mem_cons.mp hl with rfl | hl
+    · apply fold_mono
+      have hc := C08_designated fi f d hd hk
+      rw [← hp] at hc
+      rcases routeLoc_infos fi f st0 l with h0 | ⟨r, hr, _, h0⟩
+      · -- impossible: the location is routed to `d`, whose path is not empty
+        exfalso
+        have hne := decl_path_ne_nil fi f d hd hk
+        unfold routeLoc at h0
+        have hlen : ¬ (l.path.length = 1 ∧ l.path ≠ [12] ∧ l.path ≠ [2]) := by
+          intro ⟨h1, _⟩
+          match hpl : l.path, h1 with
+          | [x], _ => rw [hpl] at hc; simp [fileChildAt] at hc
+        simp only [hlen, if_false, hc, hne] at h0
+        have hX : (if l.path.length = 1 then
+            if l.path = [12] then ({ st0 with syntaxInfo := some l.tag } : InfoState)
+            else if l.path = [2] then { st0 with packageInfo := some l.tag } else st0
+          else st0).infos = st0.infos := by
+          split <;> (try split) <;> (try split) <;> rfl
+        rw [hX] at h0
+        have := congrArg List.length h0
+        simp at this
+      · rw [h0, hc] at *
+        cases hr
+        exact List.mem_cons_self ..
+    · exact ih _ l hl hp
+
+theorem loc_path_inj (locs : List Loc) (h : (locs.map (·.path)).Nodup) :
+    ∀ a ∈ locs, ∀ b ∈ locs, a.path = b.path → a = b := by
+  induction locs with
+  | nil => intro a ha; simp at ha
+  | cons x l ih =>
+    simp only [List.map_cons, List.nodup_cons] at h
+    intro a ha b hb e
+    rcases List.mem_cons.mp ha with rfl | ha' <;> rcases List.mem_cons.mp hb with rfl | hb'
+    · rfl
+    · exact absurd (e ▸ List.mem_map_of_mem hb') h.1
+    · exact absurd (e ▸ List.mem_map_of_mem ha') h.1
+    · exact ih h.2 a ha' b hb' e
+
+/-- **C08 (the information reported for an entity)**: with one location per path, the location
+    reported for a declaration is the location whose path designates it — none if there is none,
+    whatever other (distractor) locations the file carries. -/
+theorem C08_info (fi : Nat) (f : FileD) (hnd : (f.locs.map (·.path)).Nodup)
+    (d : Decl) (hd : d ∈ declFile fi f) (hk : d.kind ≠ .file) :
+    (((f.locs.foldl (routeLoc fi f) ⟨none, none, []⟩).infos.find? (·.1 == d.ref)).map (·.2))
+      = (f.locs.find? (·.path == d.ref.path)).map (·.tag) := by
+  cases hfind : f.locs.find? (·.path == d.ref.path) with
+  | none =>
+    simp only [Option.map_none, Option.map_eq_none_iff, List.find?_eq_none]
+    intro e he
+    rcases C08_only_designated fi f f.locs _ e he with h | ⟨l, hl, _, h2⟩
+    · simp at h
+    · simp only [beq_iff_eq]
+      intro heq
+      have := List.find?_eq_none.mp hfind l hl
+      apply this
+      simp only [beq_iff_eq]
+      rw [← heq, h2]
+  | some l0 =>
+    have hl0 := List.mem_of_find?_eq_some hfind
+    have hp0 : l0.path = d.ref.path := by have := List.find?_some hfind; simpa using this
+    have hatt := C08_attached fi f d hd hk f.locs ⟨none, none, []⟩ l0 hl0 hp0
+    cases hf : (f.locs.foldl (routeLoc fi f) ⟨none, none, []⟩).infos.find? (·.1 == d.ref) with
+    | none =>
+      have := List.find?_eq_none.mp hf _ hatt
+      simp at this
+    | some e =>
+      have he := List.mem_of_find?_eq_some hf
+      have he1 : e.1 = d.ref := by have := List.find?_some hf; simpa using this
+      rcases C08_only_designated fi f f.locs _ e he with h | ⟨l, hl, h1, h2⟩
+      · simp at h
+      · have : l.path = l0.path := by rw [hp0, ← he1, h2]
+        have := loc_path_inj f.locs hnd l hl l0 hl0 this
+        simp [h1, this]
+
+end Pgs.AST
+
+/-! ### non-vacuity on the example request of Props/C01: a field, a field of a map entry occupying a
+    nested-type index, and three distractor paths (odd length, a name, a path continuing below a leaf) -/
+namespace Pgs.AST
+example : fileChildAt 0 exA [4, 0, 2, 1] = some ⟨0, [4, 0, 2, 1]⟩ := by simp [fileChildAt, msgChildAt, exA, Msgs.get?]
+example : fileChildAt 0 exA [4, 0, 3, 0, 2, 1] = some ⟨0, [4, 0, 3, 0, 2, 1]⟩ := by simp [fileChildAt, msgChildAt, exA, Msgs.get?]
+example : fileChildAt 0 exA [4, 0, 1] = none := by simp [fileChildAt]
+example : fileChildAt 0 exA [4, 0, 2, 1, 1] = none := by simp [fileChildAt]
+example : fileChildAt 0 exA [4, 0, 2, 1, 3, 0] = none := by simp [fileChildAt, msgChildAt, exA, Msgs.get?]
 end Pgs.AST
